@@ -57,6 +57,68 @@ Definition expected_setters : list (bytes * bytes * bytes * bytes) :=
 Lemma gen_addr_setters : addr_setters = expected_setters.
 Proof. reflexivity. Qed.
 
+(* every ...Format setter passes the display name through quotedPairs before interpolating it, and
+   quotedPairs replaces backslash by backslash backslash and DQUOTE by backslash DQUOTE *)
+Lemma gen_format_escaped :
+  addr_format_escaped =
+    [(bs "EnvelopeFromFormat", true); (bs "FromFormat", true); (bs "AddToFormat", true); (bs "AddCcFormat", true);
+     (bs "AddBccFormat", true); (bs "ReplyToFormat", true); (bs "RequestMDNAddToFormat", true)].
+Proof. reflexivity. Qed.
+
+Lemma gen_quoted_pairs_literals : quoted_pairs_literals = [[92; 34]; [92]; [92; 92]; [34]; [92; 34]].
+Proof. reflexivity. Qed.
+
+(* ------------------------------------------------------------------ *)
+(* the display name of a ...Format call                                *)
+(* ------------------------------------------------------------------ *)
+Lemma read_qs_escape : forall n rest, forallb qs_byte n = true ->
+  read_qs (escape_name n ++ 34 :: rest) = Some (n, rest).
+Proof.
+  induction n as [|b n IH]; intros rest H; [reflexivity|].
+  simpl in H. apply andb_true_iff in H. destruct H as [Hb Hn].
+  simpl escape_name. destruct (N.eqb_spec b 92) as [->|N92].
+  - simpl. rewrite IH by exact Hn. reflexivity.
+  - destruct (N.eqb_spec b 34) as [->|N34].
+    + simpl. rewrite IH by exact Hn. reflexivity.
+    + simpl orb. cbv iota. simpl app. unfold read_qs; fold read_qs.
+      apply N.eqb_neq in N92. apply N.eqb_neq in N34. rewrite N34, N92, Hb, IH by exact Hn. reflexivity.
+Qed.
+
+(* escape / unescape round trip: the RFC 5322 reader gets back exactly the name argument *)
+Theorem format_name_roundtrip : forall name address, forallb qs_byte name = true ->
+  read_display_name (format_addr name address) = Some name.
+Proof.
+  intros name address H.
+  change (format_addr name address) with (34 :: escape_name name ++ 34 :: 32 :: 60 :: address ++ [62]).
+  unfold read_display_name. rewrite (read_qs_escape name _ H). reflexivity.
+Qed.
+
+Lemma read_qs_bad : forall n rest, forallb qs_byte n = false -> read_qs (escape_name n ++ rest) = None.
+Proof.
+  induction n as [|b n IH]; intros rest H; [discriminate|].
+  simpl in H. simpl escape_name.
+  destruct (N.eqb_spec b 92) as [->|N92]; [simpl in *; rewrite IH by exact H; reflexivity|].
+  destruct (N.eqb_spec b 34) as [->|N34]; [simpl in *; rewrite IH by exact H; reflexivity|].
+  simpl orb. cbv iota. simpl app. unfold read_qs; fold read_qs.
+  apply N.eqb_neq in N92. apply N.eqb_neq in N34. rewrite N34, N92.
+  destruct (qs_byte b); [|reflexivity]. simpl in H. rewrite IH by exact H. reflexivity.
+Qed.
+
+(* ... and a name holding CR, LF, NUL, another C0 control other than TAB, or DEL is not a quoted-string at all *)
+Theorem format_name_rejected : forall name address, forallb qs_byte name = false ->
+  read_display_name (format_addr name address) = None.
+Proof.
+  intros name address H.
+  change (format_addr name address) with (34 :: escape_name name ++ 34 :: 32 :: 60 :: address ++ [62]).
+  unfold read_display_name. rewrite (read_qs_bad name _ H). reflexivity.
+Qed.
+
+(* the unrepaired tree: backslashes vanish, a double quote ends the name *)
+Example format_name_before_fix_refuted :
+  read_display_name (format_addr_old (bs "C:\dir\file") (bs "a@x.test")) = Some (bs "C:dirfile") /\
+  read_display_name (format_addr_old (bs "say ""hi""") (bs "a@x.test")) = None.
+Proof. split; reflexivity. Qed.
+
 (* ------------------------------------------------------------------ *)
 (* byte strings, the association list                                  *)
 (* ------------------------------------------------------------------ *)
@@ -343,6 +405,39 @@ Section Proofs.
       - rewrite L, map_app. reflexivity.
       - intros k Hk. unfold m'. apply apply_call_other. rewrite K. exact Hk.
       - rewrite E. unfold spec_add. rewrite Pv. reflexivity.
+    Qed.
+    (* H-name: on a string of the form  DQUOTE ... DQUOTE SP LESS-THAN ...  the address oracle's Name is what
+       the RFC 5322 quoted-string reader reads (validated by the harness on every such string) *)
+    Hypothesis H_name : forall s a n, parse s = Some a -> read_display_name s = Some n -> a_name a = n.
+
+    (* after ANY call sequence: a successful Add...Format(name, address) appends one entry whose display
+       name is the name argument itself; a successful FromFormat / EnvelopeFromFormat / ReplyToFormat leaves
+       exactly one entry with that name *)
+    Theorem format_call_stores_name : forall calls name address, forallb qs_byte name = true ->
+      let m := run calls [] in
+      (forall s, slot_hdr s <> hdr_from -> snd (apply_call m (CAddFormat s name address)) = true ->
+         exists a, lookup (fst (apply_call m (CAddFormat s name address))) (slot_hdr s) = lookup m (slot_hdr s) ++ [a]
+                   /\ a_name a = name) /\
+      (forall c, c = CFromFormat name address \/ c = CEnvFromFormat name address \/ c = CReplyToFormat name address ->
+         snd (apply_call m c) = true ->
+         exists a, lookup (fst (apply_call m c)) (call_key c) = [a] /\ a_name a = name).
+    Proof.
+      intros calls name address Hn m.
+      assert (Hm : from_parse m) by (apply run_spec_from; apply from_parse_empty).
+      pose proof (format_name_roundtrip name address Hn) as R.
+      split.
+      - intros s Hs Hok. simpl in *. rewrite add_addr_spec in * by exact Hm. unfold spec_add in *.
+        destruct (parse (format_addr name address)) as [a|] eqn:P; [|discriminate].
+        exists a. split; [|eapply H_name; eassumption].
+        simpl. rewrite store_same. unfold stored. apply bytes_eqb_neq in Hs. rewrite Hs. reflexivity.
+      - intros c Hc Hok.
+        assert (K : forall h, apply_call m c = set_addr_header m h [format_addr name address] -> call_key c = h ->
+                    exists a, lookup (fst (apply_call m c)) (call_key c) = [a] /\ a_name a = name).
+        { intros h E Kc. rewrite E in Hok. rewrite E, Kc. unfold MsgAddr.set_addr_header in *. simpl in *.
+          destruct (parse (format_addr name address)) as [a|] eqn:P; [|discriminate].
+          exists a. split; [|eapply H_name; eassumption].
+          simpl. rewrite store_same. unfold stored. destruct (bytes_eqb h hdr_from); reflexivity. }
+        destruct Hc as [->|[->| ->]]; eapply K; reflexivity.
     Qed.
   End Roundtrip.
 
